@@ -325,8 +325,12 @@ def check(ctx):
                     fam5.append((tgt5[0], tgt5[1][i5]))
     gets = [n for g5, d5 in fam5 for n in walk_no_nested(g5) if isinstance(n, ast.Call) and isinstance(n.func, ast.Attribute) and n.func.attr in ('get', 'pop', 'setdefault')
             and isinstance(n.func.value, ast.Name) and n.func.value.id == d5]
+    def from_value(g5, d5):
+        """names of g5 that hold something taken from the value (directly, or through a step that is handed the value)"""
+        dd, _e = flow.deps(g5, sources={d5})
+        return {d5} | {nm_ for nm_, src_ in dd.items() if src_}
     none_tests = [n for g5, d5 in fam5 for n in walk_no_nested(g5) if isinstance(n, ast.Compare) and isinstance(n.ops[0], (ast.Is, ast.IsNot, ast.Eq, ast.NotEq))
-                  and isinstance(n.comparators[0], ast.Constant) and n.comparators[0].value is None and d5 in names_in(n.left)]
+                  and isinstance(n.comparators[0], ast.Constant) and n.comparators[0].value is None and names_in(n.left) & from_value(g5, d5)]
     member_in = [n for g5, d5 in fam5 for n in walk_no_nested(g5) if isinstance(n, ast.Compare) and isinstance(n.ops[0], ast.In) and ast.unparse(n.comparators[0]) == d5]
     ok = not gets and not none_tests and bool(member_in)
     ctx.instance('C20.R5', '%s presence test' % Model.qual(mt), '`name in data`' if ok else 'VIOLATION', node=mt, file=F)
